@@ -1,16 +1,20 @@
 package mqttproxy
 
 // Correspondence harness for property C09 (MQTT proxy Limiter: newLimiter's choice
-// of limiter and acquirePermission). The util limiter's clock is not reachable
-// from this package; the period is at least one second and a case runs in
-// microseconds right after the limiter is created, so every packet of a case
-// arrives in period 0.
+// of limiter and acquirePermission). The limiter reads the clock through
+// pkg/util/ratelimiter's package variable nowFunc; the overlay-only setter
+// ratelimiter.VerifSetNow (harness/overlay/pkg/util/ratelimiter/zz_verif_clock_export.go,
+// added to that package for this harness by `extra_overlay`) puts it on a virtual
+// clock: the limiter is created at virtual time 0 and packet k arrives after the
+// advances dts[0..k] (missing / negative = 0), so a case spans several periods.
 
 import (
 	"encoding/json"
 	"reflect"
 	"testing"
+	"time"
 
+	"github.com/megaease/easegress/pkg/util/ratelimiter"
 	"github.com/megaease/easegress/pkg/util/verifh"
 )
 
@@ -20,7 +24,11 @@ type c09qInput struct {
 	BytesRate   int   `json:"bytesRate"`
 	TimePeriod  int   `json:"timePeriod"`
 	Packets     []int `json:"packets"`
+	// Dts: virtual-clock advance (ns) before packet k; shorter than Packets = 0 for the rest
+	Dts []int64 `json:"dts,omitempty"`
 }
+
+var c09qBase = time.Date(2024, 1, 1, 0, 0, 0, 0, time.UTC)
 
 type c09qObs struct {
 	Kind      string  `json:"kind"`
@@ -53,6 +61,31 @@ func c09qGen(r *verifh.Rand, i int) interface{} {
 	for k := 0; k < n; k++ {
 		in.Packets = append(in.Packets, r.PickInt(1, 2, 3, 7, 10, 16, 45, 50, 51, 120))
 	}
+	if r.Bool(3, 4) { // varied clock: bursts, fractions of the period, the boundary, idle gaps
+		tp := int64(in.TimePeriod)
+		if tp <= 0 {
+			tp = 1
+		}
+		P := tp * int64(time.Second)
+		for k := 0; k < n; k++ {
+			var d int64
+			switch r.Intn(12) {
+			case 0:
+				d = P / 4
+			case 1:
+				d = P / 2
+			case 2:
+				d = P - 1
+			case 3:
+				d = P
+			case 4:
+				d = 1
+			case 5:
+				d = 2*P + P/3
+			}
+			in.Dts = append(in.Dts, d)
+		}
+	}
 	return in
 }
 
@@ -65,6 +98,9 @@ func c09qExec(raw json.RawMessage) interface{} {
 	if !in.Nil {
 		spec = &RateLimit{RequestRate: in.RequestRate, BytesRate: in.BytesRate, TimePeriod: in.TimePeriod}
 	}
+	var virt int64
+	ratelimiter.VerifSetNow(func() time.Time { return c09qBase.Add(time.Duration(virt)) })
+	defer ratelimiter.VerifSetNow(nil)
 	l := newLimiter(spec)
 	obs := c09qObs{Kind: "none", Permitted: []int{}}
 	switch {
@@ -78,7 +114,10 @@ func c09qExec(raw json.RawMessage) interface{} {
 		obs.Kind = "byte"
 		c09qPolicy(l.byteLimiter, &obs)
 	}
-	for _, p := range in.Packets {
+	for k, p := range in.Packets {
+		if k < len(in.Dts) && in.Dts[k] > 0 {
+			virt += in.Dts[k]
+		}
 		b := 0
 		if l.acquirePermission(p) {
 			b = 1
